@@ -64,6 +64,8 @@ var metaPool = [][2]string{
 	{"Content-Type", "text/plain; charset=utf-8"}, {"Content-Type", "application/octet-stream"},
 	{"Content-Encoding", "gzip"}, {"Content-Disposition", `attachment; filename="a b.txt"`},
 	{"X-Amz-Meta-Mixed-Case-Name", "MiXeD"}, {"X-Amz-Storage-Class", "STANDARD"},
+	// object properties that S3 spells X-Amz-<not Meta>
+	{"X-Amz-Tagging", "team=blue&stage=dev"}, {"X-Amz-Website-Redirect-Location", "/elsewhere.html"}, {"X-Amz-Storage-Class", "REDUCED_REDUNDANCY"},
 	// header values are bytes: UTF-8 beyond ASCII, and Latin-1 (not valid UTF-8; written with the
 	// plan's byte escape, see decodedMeta)
 	{"X-Amz-Meta-Color", ""}, {"X-Amz-Meta-Void", ""}, // a header sent with an empty value
